@@ -223,7 +223,7 @@ RULES = [
 
 
 from . import shared
-RULES = RULES + shared.bundle('C19', [], ['sesans', 'direct_model'])
+RULES = RULES + shared.bundle('C19', ['pymodel'], ['sesans', 'direct_model'])
 from . import folds as _folds
 RULES = RULES + [_folds.fold_rule('C19')]
 from .. import refs as _refs
